@@ -13,8 +13,8 @@ def opTypeOf (j : Json) : R Json := do
   let n := (nameId name).getD 1000000
   let t := match via with
     | "registry" => registryType n
-    | "jsonTop" | "jsonNested" | "jsonList" => jsonType n hooks
-    | "gobTop" | "gobNested" => gobType n
+    | "jsonTop" | "jsonNested" | "jsonList" | "jsonItemList" => jsonType n hooks
+    | "gobTop" | "gobNested" | "gobList" | "gobItemList" => gobType n
     | _ => "?"
   if t == "mismatch" then return Json.mkObj [("outside", Json.bool true)]   -- registry and switches disagree on the struct: no prediction
   return Json.str t
